@@ -188,9 +188,12 @@ type envOpts struct {
 	maxConcurrency int // 0 = no write gate
 	workers        uint
 	forwardTimeout time.Duration
-	maxBackoff     time.Duration        // 0: 1 ns (a peer that answered Unavailable is retried at once)
-	mode           receive.ReceiverMode // default RouterOnly
-	tls            bool                 // serve HTTPS (Go then speaks HTTP/2, where a client's stream reset cancels the request context at once)
+	maxBackoff     time.Duration         // 0: 1 ns (a peer that answered Unavailable is retried at once)
+	localNode      int                   // >= 1: node localNode-1 is the receiver itself (its writes go to storage)
+	splitLabel     string                // tenant split label
+	storage        receive.TenantStorage // local storage (default: one that must never be used)
+	mode           receive.ReceiverMode  // default RouterOnly
+	tls            bool                  // serve HTTPS (Go then speaks HTTP/2, where a client's stream reset cancels the request context at once)
 }
 
 var (
@@ -266,6 +269,14 @@ func newEnv(t testing.TB, o envOpts) *env {
 			t.Fatalf("NewLimiter: %v", err)
 		}
 		addr := freeAddr(t)
+		endpoint := "verif-router:0" // not a peer: nothing is "local"
+		if o.localNode >= 1 {
+			endpoint = eps[o.localNode-1].Address
+		}
+		var localStorage receive.TenantStorage = nopTenantStorage{}
+		if o.storage != nil {
+			localStorage = o.storage
+		}
 		var tlsCfg *tls.Config
 		scheme := "http://"
 		if o.tls {
@@ -278,13 +289,14 @@ func newEnv(t testing.TB, o envOpts) *env {
 		}
 		e.h = receive.NewHandler(e.plog, &receive.Options{
 			TLSConfig:               tlsCfg,
-			Writer:                  receive.NewWriter(log.NewNopLogger(), nopTenantStorage{}, nil),
+			Writer:                  receive.NewWriter(log.NewNopLogger(), localStorage, nil),
+			SplitTenantLabelName:    o.splitLabel,
 			ListenAddress:           addr,
 			Registry:                e.reg,
 			TenantHeader:            "THANOS-TENANT",
 			DefaultTenantID:         "default-tenant",
 			ReplicaHeader:           receive.DefaultReplicaHeader,
-			Endpoint:                "verif-router:0", // non-empty, not a peer: nothing is "local"
+			Endpoint:                endpoint, // non-empty; a peer address only when the case has a local replica
 			ReplicationFactor:       uint64(o.rf),
 			ReceiverMode:            o.mode,
 			DialOpts:                []grpc.DialOption{grpc.WithTransportCredentials(insecure.NewCredentials())},
